@@ -52,6 +52,25 @@ CHECKS = {
             "Filter.tla models the height filter, the one-height future cache and the worker's re-entrant drain (a delivery may commit and start the next round inside the drain); TLC checks own-height-only, eligibility, at-most-once and FIFO on its complete state graph (heights 0..3, 4 messages quick; 0..4, 5 messages thorough). The real RawMessageFilter + state.State are driven through every operation sequence up to depth 3 (quick) / 4 (thorough) and random sequences with a handler that commits on demand; TLC judges every operation. In situ: every Store* call of every real node in the cluster runs must be for the height of the term that made it.",
             "Trusted: harness glue around the filter mirrors WorkerLoop.onNewConsensusRound; guaranteed delivery is read as 'no accepted-for-caching message above H before the node starts H' (the cache keeps one height).",
             "DESIGN.md 5 C17"),
+    "C02": ("model_checking",
+            "TLC validation (Trace_BlockProof.tla / BlockProof.tla) of calls of the real ValidateBlockConsensus and GetMemberIdsFromBlockProof on systematically built and malformed proofs",
+            "BlockProof.tla states when a (block, proof) pair is acceptable in strict and soft mode. The harness builds real proof bytes for every signer subset of five weighted committees with every field deviated one at a time and in random combinations (signer status other type/view/hash/instance/height/forged, duplicates, outsiders, header type/instance/height/hash, seed ok/other previous proof/absent/forged, block matching/other hash/other height/nil) plus truncations, bit flips, random and empty bytes; TLC checks accepted => valid on the harness's own parse (ground-truth signatures) of the very bytes passed in, and that neither entry point panics.",
+            "Trusted: harness keyring and parse (protocol readers) for ground truth; the property is one-directional (valid => accepted is only reported as drift).",
+            "DESIGN.md 5 C02"),
+    "C13": ("model_checking", 'TLC: Runtime.tla (main loop, worker loop, channels, contexts, timer, blocking SPI calls) model checked exhaustively incl. liveness + TLC validation (Trace_Runtime.tla) of event traces of the real MainLoop/WorkerLoop under a randomised gating driver',
+            "Runtime.tla: commit-callback heights and new-round heights strictly increase, (height, view) never decreases with view reset on height increase, rounds after a commit are above it - invariants / action properties checked on the complete state graph (2 heights x 2 views x 2 syncs quick; 2x3x3 thorough, 1.2 M states). Real runtime: the same requirements evaluated by TLC on every event of recorded runs (failing commit callbacks, syncs with older/equal/newer heights, elections, traffic in random order), State() observed by a concurrent sampler.",
+            'Trusted: the harness driver and fake SPIs, the verif event hooks (add-only one-liners in mainloop.go / workerloop.go), the global sequence numbering of events; real-time bounds measured on this machine; interleavings are sampled by a randomised driver (plus worst-case consumer behaviour), not enumerated on the code - enumeration is done on Runtime.tla.', "DESIGN.md 5 C13"),
+    "C14": ("model_checking", 'TLC: Runtime.tla (main loop, worker loop, channels, contexts, timer, blocking SPI calls) model checked exhaustively incl. liveness + TLC validation (Trace_Runtime.tla) of event traces of the real MainLoop/WorkerLoop under a randomised gating driver',
+            "Runtime.tla: an accepted sync leads to a height above it (liveness under weak fairness), the single-slot hand-off and max-height filter are modelled literally. Real runtime: after every burst of UpdateState calls the node must get above the highest accepted block by itself even when the worker sits in an SPI call that waits for its context only; rounds entered by sync above height 1 must not act as first leader (callback flag and no view-0 proposal); UpdateState must return within the bound while the loops run.",
+            'Trusted: the harness driver and fake SPIs, the verif event hooks (add-only one-liners in mainloop.go / workerloop.go), the global sequence numbering of events; real-time bounds measured on this machine; interleavings are sampled by a randomised driver (plus worst-case consumer behaviour), not enumerated on the code - enumeration is done on Runtime.tla.', "DESIGN.md 5 C14"),
+    "C16": ("model_checking", 'TLC: Runtime.tla (main loop, worker loop, channels, contexts, timer, blocking SPI calls) model checked exhaustively incl. liveness + TLC validation (Trace_Runtime.tla) of event traces of the real MainLoop/WorkerLoop under a randomised gating driver',
+            "Runtime.tla: cancelled ~> both loops dead, nothing happens afterwards, timer stopped (liveness + action properties, exhaustive). Real runtime: cancellation injected at a random point of a third of the runs (idle, inside blocking SPI calls, during election/sync, with the real timer armed in half of the runs, SPI calls lingering after cancellation); WaitUntilShutdown must return within the bound, no callback/send/SPI/loop event may follow, API calls with the cancelled context must return, and no goroutine with a frame of the library may survive (5 s grace).",
+            'Trusted: the harness driver and fake SPIs, the verif event hooks (add-only one-liners in mainloop.go / workerloop.go), the global sequence numbering of events; real-time bounds measured on this machine; interleavings are sampled by a randomised driver (plus worst-case consumer behaviour), not enumerated on the code - enumeration is done on Runtime.tla.', "DESIGN.md 5 C16"),
+    "C20": ("model_checking",
+            "TLC: Wire.tla shape grammar enumerated + TLC validation (Trace_Wire.tla) of round trips of messages built by the real MessageFactory, compared against the factory inputs",
+            "TLC enumerates the 70 message shapes of the grammar (type x block x proof x prepare senders x votes x votes with proof); for each the harness draws field values (64-bit classes, lengths 0/1/32/255/256 and random), builds the message with the real factory, converts to raw and parses back twice; TLC checks the full accessor dump is unchanged, parsing is deterministic, every signature that verified still verifies, and that nested proofs/votes equal the PREPREPARE/PREPARE/VIEW_CHANGE messages that went into the factory; same for block proofs generated from up to 20 commit messages.",
+            "Trusted: the generated readers' accessors (bytes no accessor exposes are invisible), PRF key manager producing arbitrary-length signatures.",
+            "DESIGN.md 5 C20"),
 }
 
 PENDING_REASON = "check not built yet in this round; planned per DESIGN.md section 5 (no claim is made until a sound check exists)"
